@@ -35,6 +35,10 @@ CLAIMED = {
  'C19': ('exploration', 'planted-URL completeness monitor over generated JSON/XML/RSS/Atom/sitemap/M3U8 documents and simulated S3 buckets walked through the real preprocessor+postprocessor stages',
          'Documents carry URLs with unique tokens; after the real stages ran, every planted URL must have been requested (file extension / playlist URI) or queued as outlink (hops permitting); simulated buckets (3 API styles x 4 page sizes) are walked by following the links Zeno produced until exhaustion, every non-empty object must have been emitted and the walk must stay within a request bound.',
          'Fabricated fetches (real archiver.ProcessBody); generators are samples of document shapes; playlists are well-formed (rendition groups referenced).', '4/C19'),
+
+ 'C07': ('exploration', 'planted-reference completeness monitor over generated HTML documents through the real preprocessor+postprocessor stages, expected URLs from an independent RFC 3986 resolver; configuration matrix over disable-html-tag / capture-alternate-pages / disable-assets-capture',
+         'Each generated document plants references (unique token each) in img/script/link/source/video/audio attributes, srcset lists, <style> and style= url(); after the real stages ran, every required reference must have left the preprocessor as a request for exactly the expected absolute URL, and every anchor must have been handed to the queue.',
+         'Fabricated fetches; documents sample the attribute x quoting x reference-form x nesting space; no <base>.', '4/C07'),
 }
 NOT_BUILT = 'check not built yet in this session (planned, see DESIGN.md section 4)'
 
